@@ -1,4 +1,4 @@
 CONSTANT Ops <- MCOps
 SPECIFICATION Spec
-INVARIANTS NeverSuccessAfterFault FaultFreeSucceeds NothingAfterFault FailedSignWritesNothing
+INVARIANTS NeverSuccessAfterFault FaultFreeSucceeds NothingAfterFault MultiFaultStillReported FailedSignWritesNothing
 CHECK_DEADLOCK FALSE
